@@ -726,10 +726,12 @@ func TestVerifC17(t *testing.T) {
 	r.Assume("signature primitives are trusted; the operations were admitted without a further check (the remote-operation path of launch does not call IsValid), so operations failing IsValid are part of the menu and flagged in the signature")
 
 	type worldspec struct{ n, t10, depth int }
-	specs := vlib.Pick(r,
-		[]worldspec{{3, 670, 2}, {4, 750, 2}},
-		[]worldspec{{3, 670, 3}, {4, 750, 3}, {4, 670, 2}},
-	)
+	_, replaying := r.Replaying()
+	thorough := r.Thorough() || replaying // a replay runs in the quick tier: enumerate the thorough superset, r.Want filters
+	specs := []worldspec{{3, 670, 2}, {4, 750, 2}}
+	if thorough {
+		specs = []worldspec{{3, 670, 3}, {4, 750, 3}, {4, 670, 2}}
+	}
 	r.Set("worlds_n_t10_depth", fmt.Sprint(specs))
 
 	item := 0
@@ -846,7 +848,10 @@ func TestVerifC17(t *testing.T) {
 	}
 
 	// ---- part 2: the sign threshold check itself, on the grid
-	N := vlib.Pick(r, 64, 200)
+	N := 64
+	if thorough {
+		N = 200
+	}
 	r.Set("grid_n_max", N)
 	nodes := make([]base.Node, N)
 	signs := make([]base.NodeSign, N)
